@@ -271,7 +271,8 @@ def case_simplex(**p):
         try:
           (out,) = tr.sym_run(*xin, var_values={kvar.ref(): K})
         except sym.Undefined as e:
-          case.solve('simplex-defined' + tag, z3.BoolVal(True), witness=dict(x=x, k=K), timeout=tmo,
+          case.solve('simplex-defined' + tag, z3.BoolVal(True), assumptions=[e.cond] if getattr(e, 'cond', None) is not None else [],
+                     weak=getattr(e, 'cond', None) is not None, witness=dict(x=x, k=K), timeout=tmo,
                      sig=dict(query='defined', interp='simplex', why=str(e)[:80]), replay=replay)
           return
         case.meta['ops'] = tr.ops_seen
@@ -454,7 +455,10 @@ def replay(r):
   n = int(np.prod(sizes))
   layer = _layer(p)
   x = core.witness_np(r['witness']['x'])
-  if 'k' in r['witness']:
+  if r.get('query', '').startswith('simplex-defined'):
+    # the query only says where the code has no defined behaviour; any kernel that tells the vertices apart will do
+    K = (np.arange(n * units, dtype=np.float64).reshape(n, units) * 0.75 - 1.0)
+  elif 'k' in r['witness']:
     K = core.witness_np(r['witness']['k'])
   else:
     K = np.random.default_rng(0).integers(-8, 8, size=(n, units)) / 4.0
